@@ -521,7 +521,7 @@ except MemoryError:
     out = "MemoryError"
 except Exception as e:
     out = type(e).__name__
-print(json.dumps({"out": out, "secs": time.time() - t0, "rss_kb_before": r0,
+print(json.dumps({"out": out, "secs": time.time() - t0, "rss_kb_before": r0, "n": n,
                   "rss_kb_after": resource.getrusage(resource.RUSAGE_SELF).ru_maxrss, "in": len(data)}))
 '''
 
@@ -599,7 +599,12 @@ def measured(ctx):
         ratio = delta_kb * 1024 / max(1, m["in"])
         # run time: more than 30 s (or the time limit) for an input below 1 MB is far outside any fixed multiple of the
         # time a same-size benign file takes (milliseconds)
-        too_slow = m["out"] == "time-limit" or (m["secs"] > 30 and m["in"] < 1_000_000)
+        too_slow = m["out"] == "time-limit" or (m["secs"] > 20 and m["in"] < 1_000_000) or m.get("n", 0) > 20000
+        if key.startswith("nested-archives:") and m.get("n", 0) > 50:
+            # 7 top-level members; archives inside archives are not opened: more results than that means recursion,
+            # and the result count is exponential in the nesting depth
+            too_slow = True
+            what = what + f" produced {m.get('n')} results (nested archives were opened recursively)"
         # memory: additive constants (module imports, parser tables: a few MiB) are not amplification - the test is a
         # large multiple of the input size AND at least 48 MiB in absolute terms
         if (ratio > 200 and delta_kb > 48 * 1024) or m["out"] in ("MemoryError",) or m["out"].startswith("worker-failed") or too_slow:
@@ -678,7 +683,20 @@ def scaling(ctx):
         ms += [(f"Thumbnails/f{i}.bin", b"") for i in range(k)]
         return _zipbytes(ms)
 
-    shapes = [("epub", epub, ctx.n(3000, 8000)), ("odt", odt, ctx.n(3000, 8000)),
+    def targz_desc(k):
+        # k small members stored in DESCENDING name order inside a compressed tar: one linear pass over the stream must
+        # do (any backward seek re-decompresses the stream from its start)
+        import gzip
+        raw = io.BytesIO()
+        with tarfile.open(fileobj=raw, mode="w") as t:
+            for i in range(k, 0, -1):
+                d = b"member %d\n" % i
+                ti = tarfile.TarInfo(f"m{i:07d}.txt")
+                ti.size = len(d)
+                t.addfile(ti, io.BytesIO(d))
+        return gzip.compress(raw.getvalue(), 6)
+
+    shapes = [("epub", epub, ctx.n(3000, 8000)), ("odt", odt, ctx.n(3000, 8000)), ("tar.gz", targz_desc, ctx.n(1200, 3000)),
               ("mbox", mbox, ctx.n(1500, 6000)), ("html", html, ctx.n(150, 220)), ("rtf", rtf, ctx.n(4000, 16000)),
               ("txt", txt, ctx.n(20000, 80000))]
     meas = {}
